@@ -97,5 +97,53 @@ func TestVerifC03Sizes(t *testing.T) {
 				env.UninstallOwn()
 			}
 		}
+		// the listeners that take one query per request or stream (DoH POST with and without a declared length, DoQ): a few sizes up to
+		// the largest DNS message there is, 65535 octets - a legal query
+		for _, seam := range c03Seams {
+			switch seam.name {
+			case "http-post", "http-post-chunked", "http-post-in-pieces", "fasthttp-post", "fasthttp-post-chunked", "quic":
+			default:
+				continue
+			}
+			for i, size := range []int{28, 512, 4096, 16384, 65000, 65534, 65535} {
+				if nsh > 1 && i%nsh != sh {
+					continue
+				}
+				own := env.InstallOwn(0xA5, vRace)
+				v, err := vNewRouter(c03Config("forward"), "u1")
+				if err != nil {
+					rep.Violate("C03:sizes:router-start", err.Error(), nil)
+					env.UninstallOwn()
+					return
+				}
+				v.ups["u1"].Auto = func(q *upQuery) *upResult {
+					if q.Msg == nil {
+						return &upResult{err: errScripted}
+					}
+					return &upResult{wire: env.Answer(q.Msg, 7, 60).Encode(false)}
+				}
+				q := refdns.Query(0x5103, refdns.N("size", "example", "test"), 1, 1)
+				if pad := size - (len(q.Encode(false)) + 11 + 4); pad >= 0 {
+					q.Ar = []refdns.RR{refdns.OPT(1232, 0, refdns.Option(12, make([]byte, pad)))}
+				}
+				desc := fmt.Sprintf("%s query of %d octets", seam.name, len(q.Encode(false)))
+				rep.Eval(desc)
+				cl := seam.open(v)
+				cl.send(q)
+				wait()
+				hsleep(7 * time.Second)
+				wait()
+				ms, _ := cl.responses()
+				if len(ms) != 1 || ms[0] == nil || ms[0].ID != 0x5103 || len(ms[0].Q) != 1 || ms[0].RCode() != 0 {
+					rep.Violate("C03:sizes:"+seam.name+":response-count", fmt.Sprintf("a %s got %d DNS responses (%v): a query of this size is not answered", desc, len(ms), ms), nil)
+				}
+				cl.close()
+				v.Close()
+				for _, x := range own.Audit() {
+					rep.Violate("C03:sizes:ownership", x, nil)
+				}
+				env.UninstallOwn()
+			}
+		}
 	})
 }
